@@ -3,7 +3,7 @@
    store (proved for every genesis store: genesis_inv), [wf_hist] (the trie-layer premise on the node sets, see Crash/ProofsImport.v). *)
 From Coq Require Import List NArith Bool.
 From Verif Require Import Crash.Model Crash.ProofsStore Crash.ProofsInv Crash.ProofsImport Crash.ProofsCrash Crash.Examples
-  Crash.ProofsResume.
+  Crash.ProofsEqv Crash.ProofsShape Crash.ProofsResumeAll Crash.ProofsResume.
 Import ListNotations.
 Open Scope N_scope.
 
@@ -62,9 +62,50 @@ Example without_repair_exactly_the_f6_cuts_diverge :
          end) (seq 0 (S (length (writes_of ex_cfg ex_s0 ex_hist)))) = [3; 10; 18; 26]%nat.
 Proof. exact resume_diverges_exactly_at_f6_cuts. Qed.
 
-(* with the repair (the code as it is now) every cut of the example converges; finalized lags only at the cut between the
-   quality and the finalized record of the last committed epoch. [resume_converges_statement true] for ALL histories is
-   NOT proved (it stays a Definition); the harness evaluates it on the real code and on the model at every cut. *)
+(* ---- with the repair (the code as it is now): for EVERY history and EVERY cut.
+   Hypotheses: wf_cfg2 (epoch length > 1), Inv2 of the initial store (Inv + every stored store-point block has its quality
+   record + every chain-head entry names a stored block; proved for every genesis store), wf_hist.
+   [cut_in_import k i]: the cut k lies inside (or at the start of) the import of block i. After restart and resumption of the
+   stream from block i the store is EQUIVALENT (same value under every key) to the uninterrupted run's — except when the cut
+   lies between the quality record and the finalized record of block i: then the restarted store agrees with the completed
+   import on every key but the finalized record, which still holds the previous value (the lag the property tolerates
+   "until one further epoch has committed"; that catching-up is checked on the real code, not proved). *)
+Theorem resume_converges_except c s0 hist k i :
+  wf_cfg2 c -> Inv2 c s0 -> wf_hist c s0 hist -> cut_in_import c s0 hist k i ->
+  exists r, resume c true (crash c s0 hist k) (skipn i hist) = Some r /\
+    (eqv r (run c s0 hist) \/
+     exists b rest, skipn i hist = b :: rest /\
+                    finalized_window c (run c s0 (firstn i hist)) (crash c s0 hist k) b rest r).
+Proof. exact (ProofsResumeAll.resume_converges_except c s0 hist k i). Qed.
+
+(* equivalence spelled out: same best block, finalized block, stored set and quality records (vote tallies) *)
+Theorem resume_converges_observations c s0 hist k i :
+  wf_cfg2 c -> Inv2 c s0 -> wf_hist c s0 hist -> cut_in_import c s0 hist k i ->
+  exists r, resume c true (crash c s0 hist k) (skipn i hist) = Some r /\
+    ((get_id r KBest = get_id (run c s0 hist) KBest /\ finalized c r = finalized c (run c s0 hist) /\
+      (forall id, stored r id = stored (run c s0 hist) id) /\ (forall id, get_quality r id = get_quality (run c s0 hist) id))
+     \/ exists b rest, skipn i hist = b :: rest /\
+                       finalized_window c (run c s0 (firstn i hist)) (crash c s0 hist k) b rest r).
+Proof. exact (ProofsResumeAll.resume_converges_observations c s0 hist k i). Qed.
+
+(* a block that is stored is a no-op when delivered again; the import issues the same steps on stores that agree outside
+   the trie-node / code spaces (so leftovers of an interrupted import influence nothing) *)
+Theorem redelivered_known_block_is_noop c s b : stored s (b_id b) = true -> import_batches c s b = [].
+Proof. exact (known_is_noop c s b). Qed.
+Theorem import_reads_no_node_or_code s s' c b : eqv_na s s' -> import_steps c s b = import_steps c s' b.
+Proof. exact (na_import_steps s s' c b). Qed.
+
+(* the uninterrupted run keeps the extended invariant; every genesis store has it *)
+Theorem run_keeps_inv2 c l s : wf_cfg2 c -> Inv2 c s -> wf_hist c s l -> Inv2 c (run c s l).
+Proof. exact (run_inv2 c l s). Qed.
+Theorem genesis_store_inv2 L g : 1 < L -> num_of (b_id g) = 0 -> b_skeep g = [] -> b_ikeep g = [] ->
+  Inv2 (mkCfg L (b_id g)) (genesis_store g).
+Proof. exact (genesis_inv2 L g). Qed.
+
+Example resume_hypotheses_met : wf_cfg2 ex_cfg /\ Inv2 ex_cfg ex_s0 /\ wf_hist ex_cfg ex_s0 ex_hist /\ cut_in_import ex_cfg ex_s0 ex_hist f6_cut 2.
+Proof. exact (conj ex_wf_cfg2 (conj ex_inv2 (conj ex_wf_hist (proj1 f6_cut_position)))). Qed.
+
+(* the example history, cut by cut (the finalized-window cut of the last committed epoch is cut 27) *)
 Example with_repair_every_cut_of_the_example_converges :
   (forallb (fun k =>
     match resume ex_cfg true (crash ex_cfg ex_s0 ex_hist k) (skipn (import_of_cut ex_cfg ex_s0 ex_hist k) ex_hist) with
@@ -94,5 +135,12 @@ Print Assumptions resume_quality_refuted.
 Print Assumptions f6_witness_is_that_cut.
 Print Assumptions without_repair_exactly_the_f6_cuts_diverge.
 Print Assumptions with_repair_every_cut_of_the_example_converges.
+Print Assumptions resume_converges_except.
+Print Assumptions resume_converges_observations.
+Print Assumptions redelivered_known_block_is_noop.
+Print Assumptions import_reads_no_node_or_code.
+Print Assumptions run_keeps_inv2.
+Print Assumptions genesis_store_inv2.
+Print Assumptions resume_hypotheses_met.
 Print Assumptions hypotheses_met.
 Print Assumptions history_not_trivial.
